@@ -58,6 +58,28 @@ struct Magic
   bool operator>=(const Magic &o) const { return v >= o.v; }
 };
 static_assert(std::is_trivially_destructible<Magic>::value, "Magic must be trivially destructible");
+// trivially COPYABLE payload (defaulted copy operations) whose default member initialisers establish state that its own
+// operator=(U) relies on - a fixed-point value: assigning a U into an empty Optional<Scaled> needs a constructed object
+struct Scaled
+{
+  int perOne{3};
+  int units{0};
+  Scaled() = default;
+  Scaled(int x) : units(x * 3) {}
+  Scaled &operator=(long long x)
+  {
+    units = (int)x * perOne;
+    return *this;
+  }
+  int value() const { return perOne == 3 ? units / 3 : -12345; }
+  bool operator==(const Scaled &o) const { return value() == o.value(); }
+  bool operator!=(const Scaled &o) const { return !(*this == o); }
+  bool operator<(const Scaled &o) const { return value() < o.value(); }
+  bool operator>(const Scaled &o) const { return value() > o.value(); }
+  bool operator<=(const Scaled &o) const { return value() <= o.value(); }
+  bool operator>=(const Scaled &o) const { return value() >= o.value(); }
+};
+static_assert(std::is_trivially_copyable<Scaled>::value && !std::is_trivially_default_constructible<Scaled>::value, "Scaled: trivially copyable, non-trivial default constructor");
 struct VecFrom
 {
   int v = 0;
@@ -141,6 +163,16 @@ struct PT<Magic>
   static long long back(const Magic &t) { return t.stamp == Magic::STAMP ? t.v : -12345; }
   static void mutate(Magic &x, int v) { x.v = v; }
   static const char *name() { return "magic(trivially-destructible)"; }
+};
+template <>
+struct PT<Scaled>
+{
+  using U = long long;
+  static Scaled make(int v) { return Scaled(v); }
+  static U makeU(int v) { return v; }
+  static long long back(const Scaled &t) { return t.value(); }
+  static void mutate(Scaled &x, int v) { x = (long long)v; }
+  static const char *name() { return "scaled(trivially-copyable, own operator=(U))"; }
 };
 template <>
 struct PT<Over>
@@ -440,6 +472,94 @@ static void envvar_case(const std::tuple<int, int, int> &c, pbt::Ctx &ctx)
   ctx.label(set ? "set" : "unset");
 }
 
+// ---------------------------------------------------------------- emplace() whose payload constructor throws
+// The statement "holds a value exactly when the last operation gave it one / every constructed payload is destroyed exactly
+// once / no payload operation on dead storage" also covers an emplace() that fails: the old payload is gone, no new one
+// exists, the Optional is empty and stays usable.  Payload: lifetime-instrumented, constructor throws on request.
+struct Thrower : Tracked
+{
+  Thrower() : Tracked() {}
+  Thrower(int v, bool fail) : Tracked(v)
+  {
+    if (fail)
+      throw std::runtime_error("payload constructor failed");
+  }
+};
+static void emplace_throw_case(const std::vector<Op> &ops, pbt::Ctx &ctx)
+{
+  pbt::treg().reset();
+  bool failedOnEngaged = false;
+  {
+    std::unique_ptr<Optional<Thrower>> slot[3];
+    struct M
+    {
+      bool exists = false, has = false;
+      long long v = 0;
+    } m[3];
+    for (const Op &op : ops) {
+      int a = (int)(op.a % 3), b = (int)(op.b % 3);
+      int v = (int)op.c;
+      switch (((op.k % 6) + 6) % 6) {
+      case 0:  // (re)create empty
+        slot[a].reset(new Optional<Thrower>());
+        m[a] = M{true, false, 0};
+        break;
+      case 1:  // emplace, constructor succeeds
+        if (!m[a].exists)
+          break;
+        slot[a]->emplace(v, false);
+        m[a].has = true;
+        m[a].v = v;
+        break;
+      case 2: {  // emplace, constructor throws
+        if (!m[a].exists)
+          break;
+        bool threw = false;
+        try {
+          slot[a]->emplace(v, true);
+        } catch (const std::runtime_error &) {
+          threw = true;
+        }
+        PBT_ASSERT_MSG(threw, "the payload constructor's exception did not reach the caller of emplace()");
+        if (m[a].has)
+          failedOnEngaged = true;
+        m[a].has = false;
+        break;
+      }
+      case 3:
+        if (m[a].exists) {
+          slot[a]->reset();
+          m[a].has = false;
+        }
+        break;
+      case 4:  // copy-assign between slots
+        if (!m[a].exists || !m[b].exists)
+          break;
+        *slot[a] = std::as_const(*slot[b]);
+        m[a].has = m[b].has;
+        m[a].v = m[b].v;
+        break;
+      default:  // destroy
+        slot[a].reset();
+        m[a] = M();
+        break;
+      }
+      for (int i = 0; i < 3; ++i)
+        if (m[i].exists) {
+          PBT_ASSERT_MSG(slot[i]->has_value() == m[i].has, "slot " << i << ": has_value()=" << slot[i]->has_value() << " but the last operation " << (m[i].has ? "gave it a value" : "left it without one"));
+          if (m[i].has)
+            PBT_ASSERT_MSG((**slot[i]).value() == m[i].v, "slot " << i << " holds " << (**slot[i]).value() << ", model " << m[i].v);
+        }
+      PBT_TRACKED_OK();
+    }
+  }
+  PBT_TRACKED_OK();
+  PBT_ASSERT_MSG(pbt::treg().liveCount() == 0, "payload objects not destroyed: " << pbt::treg().liveCount());
+  if (failedOnEngaged)
+    ctx.label("failed emplace on an engaged optional");
+  ctx.nt(failedOnEngaged);
+}
+
 static void register_properties()
 {
   auto ops = pbt::vec(pbt::genOp(NKINDS, 2, 7, 63), 30);
@@ -450,6 +570,8 @@ static void register_properties()
   pbt::property<std::vector<Op>>("optional_tracked", 3000, ops, optional_case<Tracked>);
   pbt::property<std::vector<Op>>("optional_overaligned", 1000, ops, optional_case<Over>);
   pbt::property<std::vector<Op>>("optional_magic", 1500, ops, optional_case<Magic>);
+  pbt::property<std::vector<Op>>("optional_scaled", 1500, ops, optional_case<Scaled>);
+  pbt::property<std::vector<Op>>("optional_emplace_throws", 1500, pbt::vec(pbt::genOp(6, 2, 2, 63), 24), emplace_throw_case);
   pbt::property<std::tuple<int, int, int>>("getenvvar", 300,
       rc::gen::tuple(pbt::range<int>(0, 2), pbt::range<int>(0, 1), pbt::range<int>(-1000, 1000)), envvar_case);
 }
